@@ -104,6 +104,8 @@ def gen_texttable(rng, dct):
         hi = min(top, lo + rng.choice([0, 0, 0, 1, 3]))
         scales.append((lo, hi, rng.choice(["off", "on", "err", "Zustand", "x y", "ä€", "n/a"]) + str(i)))
         lo = hi + 1
+    if len(scales) > 1 and rng.random() < 0.3:
+        rng.shuffle(scales)         # declaration order of disjoint scales is immaterial
     return D.TextTable(scales), rng.choice(["A_UNICODE2STRING", "A_UTF8STRING", "A_ASCIISTRING"])
 
 
@@ -372,7 +374,11 @@ def unit_mux(g, depth, last, eop_ok):
         hi = min(top, lo + rng.choice([0, 0, 1, 4]))
         st = gen_struct(g, depth + 1, eop_ok and last) if rng.random() < 0.85 else None
         cases.append(D.MuxCase(g.name("c"), lo, hi, st))
-        lo = hi + 1 + rng.choice([0, 1, 3])
+        lo = hi + 1 + rng.choice([0, 0, 1, 3])
+    # CASEs need not be declared in ascending order of their limits (whatever the code sorts or walks in
+    # declaration order must not depend on it)
+    if len(cases) > 1 and rng.random() < 0.5:
+        rng.shuffle(cases)
     default = None
     if rng.random() < 0.5:
         default = (g.name("dflt"), gen_struct(g, depth + 1, eop_ok and last) if rng.random() < 0.8 else None)
@@ -756,12 +762,84 @@ def _shift_tail(params, start, by):
 def gen_nrc_prefix(g):
     """7F <echo of the request SID> <NRC-CONST overlaid by a VALUE parameter at the same position>"""
     rng = g.rng
-    codes = sorted(rng.sample(range(0x10, 0x80), rng.randint(1, 4)))
+    codes = rng.sample(range(0x10, 0x80), rng.randint(1, 4))
+    if rng.random() < 0.7:
+        codes.sort()
     nrc = D.nrc_const(g.name("nrc"), D.Std("A_UINT32", 8), codes, bytepos=2)
     ov = D.value(g.name("code"), D.u8(), bytepos=2)
     ov.meta.update(values=codes, overlay_of=nrc.name)
     nrc.meta["overlay"] = ov.name
     return [D.sid(0x7F, g.name("sid")), D.matching_request(g.name("rq"), 0, 1), nrc, ov]
+
+
+# ------------------------------------------------------------------ diagnostic layers (services sharing responses)
+def gen_layer(rng, profile=QUICK, n_services=None):
+    """a layer with 2-4 services.  Requests start with a SID constant (some services share the SID and differ in a
+    sub-function / identifier constant behind it); positive responses start with SID + 0x40 and may echo request
+    bytes (MATCHING-REQUEST-PARAM); services of one SID group share one positive response; most services reference
+    one common negative response `7F <request SID echo> <code>` (NEG-RESPONSE-REF); some layers have a global
+    negative response.  Coding objects of one service are told apart by their first byte, so every own encoding has
+    exactly one interpretation by its service."""
+    g = G(rng, profile)
+    n = n_services or rng.randint(2, 4)
+    sids = rng.sample(range(0x10, 0x3F), n)
+    comps, services = [], []
+    common_nr = None
+    if rng.random() < 0.85:
+        if rng.random() < 0.5:
+            ps = gen_nrc_prefix(g)
+        else:
+            ps = [D.sid(0x7F, g.name("sid")), D.matching_request(g.name("rq"), 0, 1), D.value(g.name("code"), D.u8())]
+        common_nr = D.Composite("NR_common", "neg-response", ps)
+        comps.append(common_nr)
+    gnr = None
+    if rng.random() < 0.5:
+        gnr = D.Composite("GNR", "global-neg-response", [D.sid(0x7F, g.name("sid")), D.matching_request(g.name("rq"), 0, 1),
+                                                          D.value(g.name("gcode"), D.u8(rng.choice([8, 16])))])
+        comps.append(gnr)
+
+    def body(kind):
+        try:
+            return gen_params(g, 0, kind, True)
+        except Unsupported:
+            return [D.value(g.name(), D.u8())]
+
+    prev = None        # (sid, width of the sub-function constant, used sub values, shared positive response | None)
+    for i in range(n):
+        if prev is not None and prev[1] and rng.random() < 0.5:
+            sid_v, w, used, shared_pr = prev
+        else:
+            sid_v, w, used, shared_pr = sids[i], rng.choice([0, 0, 1, 2]), set(), None
+        head = [D.sid(sid_v, g.name("sid"))]
+        if w:
+            sub = rng.choice([x for x in (rng.getrandbits(8 * w), 1, 0xF190 & ((1 << 8 * w) - 1), 0) if x not in used] or [len(used) + 2])
+            used.add(sub)
+            head.append(D.coded_const(g.name("sub"), D.Std("A_UINT32", 8 * w, None, rng.choice([None, True])), sub))
+        rq = D.Composite(f"RQ{i}", "request", head + _shift_tail(body("request"), 0, 1 + w))
+        comps.append(rq)
+        svc = D.Service(f"svc{i}", rq.name)
+        if shared_pr is not None:
+            svc.pos = [shared_pr.name]
+        elif rng.random() < 0.9:
+            ph = [D.sid(sid_v + 0x40, g.name("sid"))]
+            if w and rng.random() < 0.8:
+                ph.append(D.matching_request(g.name("echo"), 1, w))
+            pr = D.Composite(f"PR{i}", "pos-response", ph + _shift_tail(body("pos-response"), 0, params_extent(ph)))
+            comps.append(pr)
+            svc.pos = [pr.name]
+            if w and rng.random() < 0.7:
+                shared_pr = pr
+        if common_nr is not None and rng.random() < 0.8:
+            svc.neg = [common_nr.name]
+        elif rng.random() < 0.3:
+            nr = D.Composite(f"NR{i}", "neg-response", [D.sid(0x7F, g.name("sid")), D.matching_request(g.name("rq"), 0, 1 + (1 if w == 1 else 0)),
+                                                        D.value(g.name("code"), D.u8())])
+            comps.append(nr)
+            svc.neg = [nr.name]
+        services.append(svc)
+        prev = (sid_v, w, used, shared_pr)
+    layer = D.Layer(comps, services, [gnr.name] if gnr is not None else [])
+    return layer
 
 
 # ------------------------------------------------------------------ deterministic enumeration families
@@ -815,6 +893,44 @@ def enum_struct_offsets():
                         inner = D.Struct([D.value("h", D.u8()), D.value("in_", inner)], bytesize=1 + content + pad + pad)
                     ps = [D.value(f"o{i}", D.u8()) for i in range(off)] + [D.value("s", inner), D.value("y", D.u8())]
                     yield D.Composite(f"S{n}", "request", ps)
+
+
+def enum_mux_orders():
+    """multiplexers whose 2-3 regular CASEs are declared in every order, for several coverage patterns of the small switch
+    keys (contiguous from 0, hole at 0, hole in the middle), with and without DEFAULT-CASE, in `[sid, m, y:u8]`"""
+    import itertools
+    patterns = [[(0, 1), (2, 3)], [(0, 0), (1, 1), (2, 4)], [(1, 2), (3, 3)], [(0, 1), (3, 4)], [(0, 2), (3, 3), (5, 9)], [(0, 0), (1, 254)],
+                [(0, 127), (128, 255)]]
+    n = 0
+    for pat in patterns:
+        for perm in itertools.permutations(range(len(pat))):
+            for with_default in (True, False):
+                for dstruct in ((True, False) if with_default else (False,)):
+                    n += 1
+                    cases = []
+                    for i in perm:
+                        lo, hi = pat[i]
+                        st = None if i == 2 else D.Struct([D.value(f"a{i}_{j}", D.u8()) for j in range(i + 1)])
+                        cases.append(D.MuxCase(f"c{i}", lo, hi, st))
+                    default = ("other", D.Struct([D.value("d", D.u8(24))]) if dstruct else None) if with_default else None
+                    mux = D.Mux(1, 0, None, D.u8(), cases, default)
+                    yield D.Composite(f"M{n}", "request", [D.sid(), D.value("m", mux), D.value("y", D.u8())])
+
+
+def enum_mux_values(rng, comp):
+    """every way of selecting every case of the multiplexer of an `enum_mux_orders` composite"""
+    from .values import gen_params_value
+    mux = comp.params[1].dop
+    out = []
+    covered = lambda k: any(c.lower <= k <= c.upper for c in mux.cases)
+    for c in mux.cases:
+        for sel in (c.name, c.lower, c.upper):
+            out.append((sel, gen_params_value(rng, c.struct.params) if c.struct is not None else {}))
+    if mux.default is not None:
+        free = [k for k in range(256) if not covered(k)]
+        for sel in [mux.default[0], None] + free[:1] + free[-1:]:
+            out.append((sel, gen_params_value(rng, mux.default[1].params) if mux.default[1] is not None else {}))
+    return [{"m": v, "y": 0xA5} for v in out]
 
 
 # ------------------------------------------------------------------ measured input distribution
